@@ -1,4 +1,5 @@
 import Zeno.Proofs.Pause
+import Zeno.Proofs.PauseTerm
 import Zeno.Gen.Pause
 /-!
 # C14 — pause stops all stages, resume wakes them all, the protocol never deadlocks
@@ -25,6 +26,19 @@ theorem c14_no_deadlock (n : Nat) (s : S) (hr : Reachable G n s) (hq : Quiescent
     (s.stop = true → ∀ i, i < s.n → (s.sub i).st = .exited) := by
   have h := quiescent_facts G (ok_guarded facts_ok) (ok_ack facts_ok) s (reachable_inv G (ok_guarded facts_ok) n s hr) hq
   exact ⟨by simp [S.pendingCalls, h.1, h.2.1, h.2.2.1], h.2.2.2.1, h.2.2.2.2⟩
+
+/-- **No livelock**: every internal step strictly decreases the measure `mu` (blocked Resumes, collecting Resumes and their
+outstanding workers, pause signals still to be sent, tokens, live workers), so whatever the interleaving, at most `mu s`
+internal steps can follow a state `s` … -/
+theorem c14_internal_steps_bounded (s s' : S) (acts : List Act) (h : Run G s acts s') : acts.length + mu s' ≤ mu s :=
+  run_bounded G s s' acts h
+
+/-- … and together with "no deadlock": from any reachable state, any schedule of internal steps that runs until nothing more
+can happen is finite (at most `mu s` steps) and ends with every `Pause` and `Resume` call returned. -/
+theorem c14_every_call_returns (n : Nat) (s s' : S) (acts : List Act) (hr : Reachable G n s) (h : Run G s acts s')
+    (hq : Quiescent G s') : acts.length ≤ mu s ∧ s'.pendingCalls = 0 := by
+  have hb := run_bounded G s s' acts h
+  exact ⟨by omega, (c14_no_deadlock n s' (run_reachable G n s s' acts hr h) hq).1⟩
 
 /-- **Pause stops all stages**: in every reachable paused state with no `Resume` in progress, every live
 worker has the pause signal on its way or in its channel, or is already waiting — and a waiting
